@@ -100,7 +100,24 @@ def run_case(case, ctx):
         shares = set(range(H))
         desc = "writable=%r readonly=%r shares=%d existing=%r" % (sorted(writable), sorted(readonly), H, {k: sorted(v) for k, v in p2s.items()})
         try:
-            res = share_placement(set(writable), set(readonly), set(shares), {k: set(v) for k, v in p2s.items()})
+            if li == 1:
+                # the second labeling goes through the uploader's own bookkeeping (PeerSelector: add_peer, mark_readonly_peer, add_peer_with_share in
+                # generated order), which is what feeds share_placement in a real upload
+                from allmydata.immutable.upload import PeerSelector
+                ps = PeerSelector(1, H, 1, 1)
+                for peer in sorted(writable | readonly, key=lambda x: rnd.random()):
+                    ps.add_peer(peer)
+                events = [("ro", peer, None) for peer in readonly] + [("share", peer, sh) for peer, hs in p2s.items() for sh in hs]
+                rnd.shuffle(events)
+                for (ev, peer, sh) in events:
+                    if ev == "ro":
+                        ps.mark_readonly_peer(peer)
+                    else:
+                        ps.add_peer_with_share(peer, sh)
+                res = ps.get_share_placements()
+                desc += " (via PeerSelector)"
+            else:
+                res = share_placement(set(writable), set(readonly), set(shares), {k: set(v) for k, v in p2s.items()})
         except Exception as e:
             ctx.fail("exception", "share_placement raised %r for %s" % (e, desc))
             return
